@@ -4,6 +4,7 @@ package harness
 // classes. They never fail the run; they report whether the class still fails.
 
 import (
+	"bytes"
 	"encoding/json"
 	"fmt"
 	"os"
@@ -106,6 +107,59 @@ func TestKF_C01(t *testing.T) {
 		}
 	}
 
+	b, _ := json.MarshalIndent(out, "", " ")
+	if err := os.WriteFile(*flagKFOut, b, 0o644); err != nil {
+		t.Fatal(err)
+	}
+}
+
+// TestKF_C04 probes KF3: a collation tree misses, in Prefix(p), a stored key that begins with p when
+// p ends between two non-ignorable combining marks that the collator reorders (they are stored
+// in non-canonical order) and another stored key continues p's own primary weights.
+func TestKF_C04(t *testing.T) {
+	if *flagKFOut == "" {
+		t.Skip("no -verif.kfout")
+	}
+	out := map[string]*kfResult{"KF3": {}}
+	cases := [][]string{ // stored keys...; the last element is the prefix
+		{"\u0f40\u0f74\u0f72", "\u0f40\u0f74", "\u0f40\u0f74"},
+		{"\u0f40\u0f74\u0f72", "\u0f40\u0f74", "\u0f40\u0f74\u0f74", "\u0f40\u0f72", "\u0f40\u0f74"},
+		{"\u0c15\u0c56\u0c55", "\u0c15\u0c56", "\u0c15\u0c56"},
+	}
+	for _, c := range cases {
+		for _, kn := range []string{"coll:und:string", "coll:und:bytes"} {
+			k := MustKind(kn)
+			cfg := &Config{Property: "C04", Assert: asserts("prefix")}
+			eng := NewEngine(cfg, []Kind{k})
+			var ops []Op
+			for i, key := range c[:len(c)-1] {
+				ops = append(ops, Op{Op: "insert", K: []byte(key), V: i + 1})
+			}
+			p := []byte(c[len(c)-1])
+			for _, op := range ops {
+				_ = eng.Apply(op)
+			}
+			// the plain statement of C04, without the harness's exclusion of this class
+			var want, got []string
+			for _, en := range eng.slots[0].model.Sorted() {
+				if bytes.HasPrefix(en.Raw, p) {
+					want = append(want, string(en.Raw))
+				}
+			}
+			perr := call(func() {
+				eng.slots[0].sub.Prefix(p)(func(key []byte, _ int) bool { got = append(got, string(key)); return true })
+			})
+			r := out["KF3"]
+			r.Tried++
+			if perr != "" || fmt.Sprintf("%q", got) != fmt.Sprintf("%q", want) {
+				r.Failed++
+				if !r.StillFails {
+					r.StillFails = true
+					r.Example = fmt.Sprintf("stored %+q on %s: Prefix(%+q) yields %+q, the stored keys that begin with it are %+q %s", c[:len(c)-1], kn, string(p), got, want, perr)
+				}
+			}
+		}
+	}
 	b, _ := json.MarshalIndent(out, "", " ")
 	if err := os.WriteFile(*flagKFOut, b, 0o644); err != nil {
 		t.Fatal(err)
